@@ -134,13 +134,24 @@ func genC15(t *rapid.T) c15Case {
 	nv := rapid.IntRange(1, 4).Draw(t, "nv")
 	names := rapid.Permutation(c15Names).Draw(t, "names")[:nv]
 	msgs := []string{"", "failed", "message", "targetClass", "value {{ex.p0}} and {{ ex.p1 }}", "violation: {{ex.p0}}", "propertyConstraints", "two lines\nsecond: {{ex.p0}} # not a comment", "- looks like: a list", "ends with a line break\n", "one two three four five {{ex.p0}} six\n"}
+	anyWide := false
 	for i := 0; i < nv; i++ {
 		g.budget = 7
 		class := "ex.Test"
 		if rapid.IntRange(0, 3).Draw(t, "shapesClass") == 0 {
 			class = "shapes.Thing"
 		}
-		p.Validations = append(p.Validations, m.Validation{Name: names[i], Level: pick(t, []string{"violation", "warning", "info"}, "level"), Class: class, Body: g.bounded(40), Message: pick(t, msgs, "msg")})
+		var body *m.F
+		if rapid.IntRange(0, 2).Draw(t, "wideBody") == 0 {
+			anyWide = true
+			// a wide or/and of small groups: the translator's cross product of failure branches, whose order depends
+			// on how the operands print (prefix names, key order)
+			g.maxAtoms = 6
+			body = wideFormula(t, g)
+		} else {
+			body = g.bounded(40)
+		}
+		p.Validations = append(p.Validations, m.Validation{Name: names[i], Level: pick(t, []string{"violation", "warning", "info"}, "level"), Class: class, Body: body, Message: pick(t, msgs, "msg")})
 	}
 	// names that are listed but not defined (ignored by the language) take part in the level-list permutations
 	if rapid.Bool().Draw(t, "undefinedNames") {
@@ -155,6 +166,10 @@ func genC15(t *rapid.T) c15Case {
 		v.Body.MarkPolarity(m.Pos)
 	}
 	gr := randomGraph(t, g.atoms, []string{"e0", "e1"}, 5)
+	if anyWide && len(g.atoms) <= 6 {
+		// every truth assignment of the atoms: a branch dropped from the cross product shows on some node
+		gr = propositionalGraph(t, g.atoms)
+	}
 	for _, n := range gr.Nodes {
 		if rapid.Bool().Draw(t, "thing") {
 			n.Types = append(n.Types, "http://a.ml/vocabularies/shapes#Thing")
